@@ -43,6 +43,9 @@ ASSUMPTIONS = [
     'blocks of one layer are at equal elevation',
     'block order dmplex is explored only for geometries of 3- and 4-sided columns (documented restriction)',
     'convention 1 (2-character column names) is explored only for geometries of <= 99 columns and nodes',
+    'names whose junction triggers the blank -> zero repair of block_name(): conventions 0 and 3 with numeric column names '
+    'and layers \' d\', convention 1 with layer names ending in a digit and columns \' d\'; under convention 2 the repaired '
+    'positions all lie inside the 3-digit column name, which would have to be \'d d\' - not a number, not explored',
     'gravity cosines of tilted geometries (gdcx, gdcy non-zero) are not asserted; everything else is',
     'permeability direction: ties of the two horizontal components within 1e-9 are accepted either way',
     'comparison tolerance 1e-9 relative against the exact reference (1e-9 absolute for a cosine that is exactly 0)',
@@ -113,7 +116,7 @@ def names_for(naming, ncol, nnode, nlay):
     """Column, node and layer names (layer 0 = atmosphere layer) of my own naming schemes, or None when the
     convention cannot hold the geometry."""
     conv = naming_convention(naming)
-    if naming == 'c0d' or conv == 2:
+    if naming in ('c0d', 'c3d') or conv == 2:
         w = 3
         if max(ncol, nnode) > 999:
             return None
@@ -129,10 +132,17 @@ def names_for(naming, ncol, nnode, nlay):
             return None
         cn = [letters(i + 1).rjust(3) for i in range(ncol)]
         nn = [letters(i + 1).rjust(3) for i in range(nnode)]
-    if conv == 0:
+    if conv == 0 or naming == 'c3d':
+        # (c0d, c3d: a column name ending in a digit followed by a layer name ' d' - block_name() turns the blank
+        # at the junction into a zero, TOUGH2 reading names as (a3, i2))
         if nlay > 99:
             return None
         ln = [' 0'] + [str(k).rjust(2) for k in range(1, nlay + 1)]
+    elif naming == 'c1d':
+        # convention 1 counterpart: a layer name ending in a digit followed by a column name ' d'
+        if nlay > 9:
+            return None
+        ln = ['atm'] + [' L%d' % k for k in range(1, nlay + 1)]
     elif conv == 1:
         ln = ['atm'] + [letters(k).rjust(3) for k in range(1, nlay + 1)]
     elif conv == 2:
@@ -399,7 +409,8 @@ class Ctx(object):
         self.pairs = [(hc['a'], hc['b']) for hc in self.st.hcons]
         self.dmplex_ok = all(len(c['nodes']) in (3, 4) for c in self.raw.cols)
         self.tilted = transform in TILTS
-        self.nameclass = 'digit-columns' if naming == 'c0d' else 'std'
+        self.nameclass = {'c0d': 'digit-columns', 'c3d': 'digit-columns-conv3',
+                          'c1d': 'digit-layers-conv1'}.get(naming, 'std')
         self.centreclass = '|layer-centres=off-mid' if transform in CENTRES else ''
         self.atm_connection = R.fr(geo.atmosphere_connection)
         self.conv0 = geo.convention
@@ -961,8 +972,9 @@ def units(tier):
                                  bmaps=('none', 'full') if thorough else ('none',)), history=True))
         # layer_column spelt out, and numeric column names under convention 0
         us.append(U(desc, 'lib0', 'id', 'k1', orders=('layer_column',), angles=(0.0,), bmaps=('none',)))
-        if desc[3] == 2 or thorough:
-            us.append(U(desc, 'c0d', 'id', 'k1', orders=(None,), angles=(0.0,), bmaps=('none', 'full')))
+        for nm in ('c0d', 'c1d', 'c3d'):
+            if desc[3] == 2 or thorough:
+                us.append(U(desc, nm, 'id', 'k1', orders=(None,), angles=(0.0,), bmaps=('none', 'full')))
     for desc, full in ((('mix',), 'k2'), (('tq',), 'prod'), (('mixr',), 'k2c')):
         for naming in OWNN:
             for atm in ALL_ATM:
@@ -993,7 +1005,8 @@ def units(tier):
                                  bmaps=('none', 'full') if thorough else ('none',)), history=True))
         if not thorough:
             us.append(U(desc, 'c0', 'id', full, atms=(1,), orders=(None,), angles=(0.0,), bmaps=('none',)))
-        us.append(U(desc, 'c0d', 'id', 'k1', orders=(None,), angles=(0.0,), bmaps=('none', 'full')))
+        for nm in ('c0d', 'c1d', 'c3d'):
+            us.append(U(desc, nm, 'id', 'k1', orders=(None,), angles=(0.0,), bmaps=('none', 'full')))
     # g7 and refinements
     for naming in ('c0', 'c2', 'c3'):
         for tr in TRANSFORMS:
@@ -1017,7 +1030,8 @@ def units(tier):
             for tr in (TRANSFORMS if thorough else (('id', 'rot30') if desc == ('g7p',) else ('rot30',))):
                 us.append(U(desc, naming, tr, 'base', bmaps=('none', 'full'),
                             angles=ANGLES if thorough else (30.0,)))
-    us.append(U(('g7',), 'c0d', 'id', 'base', orders=(None,), angles=(0.0,), bmaps=('none',)))
+    for nm in ('c0d', 'c3d'):
+        us.append(U(('g7',), nm, 'id', 'base', orders=(None,), angles=(0.0,), bmaps=('none',)))
     # shipped geometries exactly as read from their files (own names, surfaces, options)
     for name in (('g1', 'g2', 'g3', 'g4', 'g5', 'g6', 'g7') if thorough else ('g1', 'g5', 'g7')):
         for tr in (('id', 'rot30', 'shift', 'tiltx') if thorough else ('id',)):
